@@ -3,7 +3,7 @@
    nat, positive, N, Z, ascii, string stay Coq datatypes; there is no Extract Constant. *)
 From Coq Require Import ExtrOcamlBasic.
 From Coq Require Import List ZArith String DecimalString DecimalZ.
-From DD Require Import Model.Circuit Model.Query Model.Enumerate.
+From DD Require Import Model.Circuit Model.Query Model.Enumerate Proofs.C07Defs.
 
 Definition z_to_string (z : Z) : string := NilEmpty.string_of_int (Z.to_int z).
 Definition z_of_string (s : string) : option Z :=
@@ -17,4 +17,4 @@ Extraction "../ocaml/model.ml"
   lits_nonzero all_reachable
   build fresh_scratch execute_query sat sat_propagate core_dead_with_assumptions
   card_of_each_feature get_marked_nodes_clone marks mdl temps pds calculate_core lit_idx
-  enumerate uniform_random_sampling is_perm sort_abs.
+  enumerate uniform_random_sampling is_perm sort_abs urs_choices_okb.
